@@ -319,6 +319,8 @@ func c02Programs() []string {
 		"for { if true { n = 1 } else { n = 2 } }",
 		"for { n = func(a) { return a }(1) }",
 		"for { n = [1, 2][0] + len(\"ab\") }",
+		"for { probe(probe2(probe(\"in\"), hzero())) }",
+		"for { n = [probe(1), probe(2), hfix3(probe(3), 4, probe(5))] }",
 	}
 	wraps := []string{
 		"%s",
@@ -341,6 +343,14 @@ func c02Programs() []string {
 		"func outer() { try { %s } catch e { return 1 }; return 2 }\nprobe(outer() ?? \"swallowed\")",
 		"y = true ? func() { %s }() : 0\nprobe(\"after\")",
 		"z = func() { %s }() || probe(\"rhs\")\nprobe(\"after\")",
+		// the spinning core inside a deferred script function of a frame that is left by an explicit return: the
+		// interruption of the deferred call is what the frame ends with
+		"func wr() { defer func() { %s }(); return 1 }\nwr()",
+		"func wr() { defer func() { %s }(); return 1 }\nx = [wr(), 2]\nprobe(\"after\")",
+		"func wr5(a, b, c, d, e) { defer func() { %s }(); return 1 }\nwr5(1, 2, 3, 4, 5)",
+		"func wr() { defer func() { %s }(); return 1 }\ny = wr() + 1\nprobe(\"after\")",
+		"func wt() { defer func() { %s }(); throw \"body\" }\ntry { wt() } catch e { probe(\"caught\") }\nprobe(\"after\")",
+		"defer func() { %s }()\nreturn 1",
 	}
 	var out []string
 	for _, c := range cores {
